@@ -370,6 +370,47 @@ Proof.
   rewrite (proj2 (N.eqb_neq _ 0) Hb). cbn [andb]. reflexivity.
 Qed.
 
+(* ---------- (b'') distributeSlashedFunds ---------- *)
+Lemma distribute_slashed_total total pct n :
+  pct <= 100 -> exists r e, distribute_slashed total pct n = Ok (r, e) /\ r + e * n <= total.
+Proof.
+  intros Hp. unfold distribute_slashed. rewrite qquo_ok by lia. cbn [bind].
+  assert (Hle : total * pct / 100 <= total) by (apply mul_frac_le; lia).
+  destruct (n =? 0) eqn:E; b2p.
+  - subst. do 2 eexists. split; [reflexivity|lia].
+  - rewrite qsub_ok by exact Hle. cbn [bind]. rewrite qquo_ok by exact E. cbn [bind].
+    do 2 eexists. split; [reflexivity|].
+    pose proof (div_mul_self_le (total - total * pct / 100) n E). lia.
+Qed.
+
+(* a percentage above 100 (excluded by the descriptor validity check) makes it fail as soon as
+   something was slashed and somebody else is to be rewarded *)
+Lemma distribute_slashed_fatal_above_100 total pct n :
+  100 < pct -> 100 <= total -> n <> 0 -> distribute_slashed total pct n = Fatal.
+Proof.
+  intros Hp Ht Hn. unfold distribute_slashed. rewrite qquo_ok by lia. cbn [bind].
+  rewrite (proj2 (N.eqb_neq n 0) Hn).
+  assert (H : total < total * pct / 100).
+  { apply N.lt_le_trans with (total * 101 / 100).
+    - apply N.lt_le_trans with ((total * 100 + 100) / 100).
+      + replace (total * 100 + 100) with ((total + 1) * 100) by lia. rewrite N.div_mul by lia. lia.
+      + apply N.div_le_mono; lia.
+    - apply N.div_le_mono; [lia|]. apply N.mul_le_mono_l. lia. }
+  unfold qsub. destruct (total <? total * pct / 100) eqn:E; b2p; [reflexivity|lia].
+Qed.
+
+Lemma rt_percent_valid_spec pe pb : rt_percent_valid pe pb = true <-> pe <= 100 /\ pb <= 100.
+Proof.
+  unfold rt_percent_valid. rewrite andb_true_iff, !N.leb_le. tauto.
+Qed.
+
+(* the copy/paste validity check accepts a descriptor with which the distribution fails *)
+Lemma rt_percent_copy_paste_refuted :
+  exists pe pb total n,
+    rt_percent_valid_copy_paste pe pb = true /\ rt_percent_valid pe pb = false /\
+    distribute_slashed total pb n = Fatal.
+Proof. exists 30, 200, 100, 1. repeat split; reflexivity. Qed.
+
 (* ---------- (d) slashing and debonding ---------- *)
 Lemma slash_pool_ok bal amount total :
   exists s, slash_pool bal amount total = Ok s /\ s <= bal.
